@@ -23,13 +23,13 @@ NINE_KEYS = ["dimension_names", "dimension_items", "processes", "flows", "flow_d
     "export.convert_to_dict_numpy",
     props=["C19", "C15"],
     targets=["flodym.export.data_writer.convert_to_dict", "flodym.export.data_writer._convert_to_dict_by_func", "flodym.export.data_writer._get_convert_func"],
-    skeletons=lambda tier: [{"graph": g} for g in GRAPHS if tier == "thorough" or not g.startswith("generated")],
-    note="the numpy form returns the live value buffers of the system (the statement only requires the export not to alter the system)",
+    skeletons=lambda tier: [{"graph": g, "table": t} for g in GRAPHS if tier == "thorough" or not g.startswith("generated") for t in ("as_listed", "permuted") if t == "as_listed" or len(GRAPHS[g][0]) > 2],
+    note="the numpy form returns the live value buffers of the system (the statement only requires the export not to alter the system); process table in id order and in another order (ids are not positions)",
 )
 def u_convert_numpy(W, sk):
     from flodym.export.data_writer import convert_to_dict
 
-    S = System(W, sk["graph"])
+    S = System(W, sk["graph"], table=sk["table"])
     mfa = S.mfa
     snaps = SL.snapshot(W, S.arrays())
     out = W.call(lambda: convert_to_dict(mfa, "numpy"))
@@ -274,9 +274,12 @@ class Recorder:
 
 def sk_sankey(tier):
     out = []
-    for g in ("chain_mixed_dims", "parallel_and_opposing", "with_stock", "self_loop", "no_stocks_scalar_flows"):
+    for g in ("chain_mixed_dims", "parallel_and_opposing", "with_stock", "self_loop", "no_stocks_scalar_flows", "inner_ring_mixed_dims"):
         for opt in ("default", "exclude_flow", "exclude_process", "slice_item", "split_by_dim"):
-            out.append({"graph": g, "opt": opt})
+            out.append({"graph": g, "opt": opt, "table": "as_listed"})
+    # process table in another order than the ids (ids are not positions)
+    for opt in ("default", "exclude_process", "slice_item"):
+        out.append({"graph": "inner_ring_mixed_dims", "opt": opt, "table": "permuted"})
     return out
 
 
@@ -306,7 +309,7 @@ def u_sankey(W, sk):
     import flodym.export.sankey as sk_mod
     from flodym.dimensions import Dimension
 
-    S = System(W, sk["graph"])
+    S = System(W, sk["graph"], table=sk.get("table", "as_listed"))
     mfa = S.mfa
     opt = sk["opt"]
     kw = {}
@@ -339,6 +342,9 @@ def u_sankey(W, sk):
     if o2.kind != "return":
         return
     links, nodes = o2.value
+    W.prove("sankey.plotter_settings_unchanged", dict(plotter.slice_dict) == dict(slice_dict) and list(plotter.exclude_processes) == list(excluded_p) and list(plotter.exclude_flows) == list(excluded_f), kind="frame", detail=f"slice_dict {plotter.slice_dict}")
+    o3 = W.call(lambda: plotter._get_links_dict())
+    W.prove("sankey.links_same_on_second_call", o3.kind == "return" and o3.value["label"] == links["label"] and o3.value["source"] == links["source"] and o3.value["target"] == links["target"] and len(o3.value["value"]) == len(links["value"]) and all(bool(W.num_eq(a, b)) for a, b in zip(o3.value["value"], links["value"])))
     shown_p = [p for p in S.processes if p not in excluded_p]
     W.prove("sankey.nodes.shown_processes_in_order", nodes["label"] == shown_p)
     shown = [(fl, a, b) for fl, a, b in S.flow_list if fl.name not in excluded_f and a not in excluded_p and b not in excluded_p]
